@@ -251,6 +251,12 @@ ReadyLate(s) == /\ sk[s].aborting > 0 /\ (Deliverable(s) > 0 \/ EofDeliverable(s
 ReadEof(s, h) == /\ sk[s].rd # None /\ sk[s].rd.h = h /\ EofDeliverable(s)
                  /\ sk' = [sk EXCEPT ![s].rd = None, ![s].eofRead = TRUE]
                  /\ UNCHANGED <<now, nat, lst, cn, st>>
+\* a read issued after end-of-file was read (the connection is gone): fails without delivering anything; the
+\* statement only fixes what is delivered before end-of-file, so either eof again or not_connected is accepted
+ReadAfterEof(s, h) == /\ sk[s].eofRead
+                      /\ IF sk[s].rd # None /\ sk[s].rd.h = h THEN sk' = [sk EXCEPT ![s].rd = None]
+                         ELSE sk[s].aborting > 0 /\ sk' = [sk EXCEPT ![s].aborting = @ - 1]
+                      /\ UNCHANGED <<now, nat, lst, cn, st>>
 \* readiness (async_wait(wait_read)): data or EOF can be read without blocking; nothing consumed
 Ready(s, h) == /\ sk[s].rd # None /\ sk[s].rd.h = h /\ sk[s].rd.style = "wait"
                /\ (Deliverable(s) > 0 \/ EofDeliverable(s))
